@@ -30,13 +30,15 @@ LEVEL_RULE = "one obligation per handler / lazy use / validate method / fenced c
 FLOORS = {"R1": 4, "R2": 20, "R3": 12, "R4": 6, "R5": 3, "R6": 6, "R7": 5, "R8": 1}
 
 EH = "pandera/api/base/error_handler.py::ErrorHandler"
-EMPTY_HANDLERS_OK = {
-    # (function short name, first statement of the handler) -> reason
-    ("DataFrameSchemaBackend.collect_column_info", "pass"):
-        "regex column without a match: not an error of the container, reported by the component's own validation",
-    ("DataFrameSchemaBackend._coerce_dtype_helper", "matched_columns = pd.Index([])"):
-        "regex column without a match: nothing to coerce; the component validation reports it",
-}
+# A handler may drop the caught SchemaError only when the fenced body does nothing but expand a regex column name:
+# "regex column without a match" is not an error of the container (nothing to collect / coerce); the component's own
+# validation reports it.  Recognised by what the try body calls, not by how the handler is spelled.
+REGEX_EXPANSION_CALLS = {"get_regex_columns", "get_backend", "extend", "append", "Index", "list"}
+
+
+def _only_regex_expansion(t: ast.Try) -> bool:
+    called = {callee_last(c) for b in t.body for c in calls_in(b, nested=True)}
+    return "get_regex_columns" in called and called <= REGEX_EXPANSION_CALLS
 
 
 def r1_collect_error(ctx):
@@ -145,9 +147,9 @@ def r2_no_swallow(ctx):
                     ctx.touched(f)
                     how = _handler_forwards(f, h)
                     first = txt(h.body[0]) if h.body else ""
-                    key = (f.short.split(".<")[0], first)
-                    if not how and key in EMPTY_HANDLERS_OK:
-                        ctx.ob("R2", f, f"except {'/'.join(names)}: `{first[:40]}`", True, "confirmed exception: " + EMPTY_HANDLERS_OK[key], f.loc(h))
+                    if not how and _only_regex_expansion(t):
+                        ctx.ob("R2", f, f"except {'/'.join(names)} around regex expansion in {f.short}", True,
+                               "confirmed exception: regex column without a match is not the container's error; the component validation reports it", f.loc(h))
                         continue
                     ctx.ob("R2", f, f"except {'/'.join(names)} in {f.short}", bool(how),
                            how if how else f"the caught schema error is dropped (handler starts with `{first[:50]}`): a failure that "
@@ -229,8 +231,12 @@ def r4_final_raise(ctx):
             continue
         t = tests[-1]
         # true branch: raise SchemaErrors(schema_errors=error_handler.schema_errors) or drop_invalid_rows
-        true_nodes = cfg.reachable(next(b for b, l in cfg.succ[t.id] if l == "True"), skip_labels=("exc", "fin-exc")) - \
-            cfg.reachable(next(b for b, l in cfg.succ[t.id] if l == "False"), skip_labels=("exc", "fin-exc"))
+        # which edge of the test means "errors were collected" (the test may be written `if not ...collected_errors`)
+        from ..util import strip_not
+        _e, pol = strip_not(t.ast)
+        yes, no = ("True", "False") if pol else ("False", "True")
+        true_nodes = cfg.reachable(next(b for b, l in cfg.succ[t.id] if l == yes), skip_labels=("exc", "fin-exc")) - \
+            cfg.reachable(next(b for b, l in cfg.succ[t.id] if l == no), skip_labels=("exc", "fin-exc"))
         raises = [cfg.nodes[i].ast for i in true_nodes if cfg.nodes[i].kind == "stmt" and isinstance(cfg.nodes[i].ast, ast.Raise)]
         drops = [cfg.nodes[i].ast for i in true_nodes if cfg.nodes[i].kind == "stmt" and any(callee_last(c) == "drop_invalid_rows" for c in calls_in(cfg.nodes[i].ast))]
         good_raise = [r for r in raises if isinstance(r.exc, ast.Call) and callee_last(r.exc) == "SchemaErrors"
